@@ -1,5 +1,7 @@
 package main
 
+import "go/types"
+
 // appendValues is the append builtin on an explicit element list.
 func (w *W) appendValues(s *State, sl SliceV, add []Value) Value {
 	if len(add) == 0 {
@@ -124,3 +126,6 @@ func iteRuns(idx *Term, el []Value) Value {
 	}
 	return res
 }
+
+// amd64Sizes gives the sizes the gc compiler uses on amd64 (element sizes of make([]T, n)).
+var amd64Sizes = types.SizesFor("gc", "amd64")
